@@ -133,17 +133,17 @@ def explore(factory, acc: core.Acc, *, depth, case, params, max_dev=None, prune=
             if v:
                 for sig, detail in v:
                     acc.violation(sig, case, dict(params, choices=list(prefix)), dict(detail=detail, trace=trace))
-                acc.case(key=("x", prefix), outcome="violation-midway")
+                acc.case(key=(repr(sorted(params.items())), prefix), outcome="violation-midway")
                 n_exec += 1
                 continue
-            expand = len(prefix) - len(root) < depth
+            expand = getattr(h, "depth_used", len(prefix)) < depth
             menu = h.menu() if expand else []
             if expand and prune:
                 key = h.canon()
                 if key is not None:
                     k = core.h64(key)
                     best = seen.get(k)
-                    cur = (len(prefix), devs)
+                    cur = (getattr(h, "depth_used", len(prefix)), devs)
                     if best is not None and best[0] <= cur[0] and best[1] <= cur[1]:
                         acc.extra["pruned"] += 1
                         continue
@@ -155,7 +155,7 @@ def explore(factory, acc: core.Acc, *, depth, case, params, max_dev=None, prune=
                 fv = h.finish() if finish else []
                 for sig, detail in fv:
                     acc.violation(sig, case, dict(params, choices=list(prefix)), dict(detail=detail, trace=trace))
-                acc.case(key=("x", prefix), outcome=getattr(h, "outcome", lambda: "done")() if not fv else fv[0][0], sample={"choices": list(prefix), "trace": trace} if n_exec <= 2 else None)
+                acc.case(key=(repr(sorted(params.items())), prefix), outcome=getattr(h, "outcome", lambda: "done")() if not fv else fv[0][0], sample={"choices": list(prefix), "trace": trace} if n_exec <= 2 else None)
                 acc.traces += 1
                 continue
             for i in reversed(range(len(menu))):
@@ -170,3 +170,22 @@ def explore(factory, acc: core.Acc, *, depth, case, params, max_dev=None, prune=
             acc.capped.append(f"max_exec={max_exec} reached at root {list(root)}")
             break
     return n_exec
+
+
+def roots(factory, r):
+    """All choice prefixes of length <= r that are maximal (length r or dead end): work units for parallel exploration."""
+    out = []
+    stack = [()]
+    while stack:
+        prefix = stack.pop()
+        h, _ = run_prefix(factory, prefix)
+        try:
+            menu = [] if h.violations() else h.menu()
+        finally:
+            h.close()
+        if len(prefix) >= r or not menu:
+            out.append(prefix)
+            continue
+        for i in reversed(range(len(menu))):
+            stack.append(prefix + (i,))
+    return out
